@@ -78,6 +78,24 @@ func genC17(seed uint64, tier string) *Plan {
 		}
 		conc.Sub = append(conc.Sub, sub)
 	}
+	if len(conc.Sub) >= 2 && r.Bool(0.15) {
+		// every query of the batch has a deadline: the first to arrive a short
+		// one, the others a minute (those are compared), and somebody is slow
+		first := 0
+		for j := range conc.Sub {
+			if conc.Sub[j].N < conc.Sub[first].N {
+				first = j
+			}
+		}
+		for j := range conc.Sub {
+			conc.Sub[j].Dt = int64(time.Minute)
+			if conc.Sub[j].S2 == "" && conc.Sub[j].N2 == 0 && j != first && r.Bool(0.5) {
+				conc.Sub[j].S2 = "slow"
+			}
+		}
+		conc.Sub[first].Dt = PickOne(r, []int64{int64(2 * time.Millisecond), int64(10 * time.Millisecond), int64(40 * time.Millisecond)})
+		conc.Sub[first].N = 0
+	}
 	conc.Sub = append(conc.Sub, late...)
 	p.Ops = append(p.Ops, conc)
 	maybeYield(r, p, 0.4)
@@ -196,7 +214,7 @@ func execC17(e *Env, p *Plan) error {
 			nonEmpty := 0
 			for j := range conc {
 				a, b := soloRes[j], concRes[j]
-				if op.Sub[j].Dt > 0 {
+				if d := op.Sub[j].Dt; d > 0 && d < int64(time.Second) {
 					e.Count("probe.deadline-query-in-batch")
 					continue
 				}
